@@ -63,6 +63,13 @@ func VerifC18_widelines() {
 }
 
 func verifC18Metrics(s string) {
+	// the functions are pure: what was measured earlier in the process (the whole string, as one
+	// line's worth of cells or runes) has no influence on later answers
+	if vfChoice("measured-whole-before", 2) == 1 {
+		StringCells(s)
+		StringRunes(s)
+		vfTag("whole-string-measured-before")
+	}
 	lines := Lines(s)
 	joined := strings.Join(lines, "\n")
 	vfAssert(vfOr(joined == s, joined+"\n" == s), "lines-lose-only-breaks-and-one-trailing-newline")
@@ -84,6 +91,7 @@ func verifC18Metrics(s string) {
 	vfAssert(LongestLineBytes(s) == maxB, "longest-bytes-is-max")
 	vfAssert(LongestLineRunes(s) == maxR, "longest-runes-is-max")
 	vfAssert(LongestLineCells(s) == maxC, "longest-cells-is-max")
+	vfAssert(LongestLineCells(s) == maxC, "longest-cells-is-max") // and again
 	vfObserveInt("nlines", len(lines))
 	vfObserveInt("maxB", maxB)
 	vfObserveInt("maxR", maxR)
